@@ -94,6 +94,24 @@ def run(pid, tier, seed):
         v.violation(sig, {"family": "registry", "meta": meta, "trace": [json.loads(x) for x in viol["run"]],
                           "first_unexplained": viol.get("lenient_event_index"), "event": ev,
                           "replay_cmd": "./check %s --replay <this file>" % pid})
+    # V2: the same spawner roles free running (real threads, no scheduler): reaches windows inside regions the hooks
+    # treat as atomic (e.g. a check-then-insert in place of the entry API); observation lines only, lenient validation
+    tracef = os.path.join(w, "batch_free.ndjson")
+    summf = vlib.harness(["registry-free", "--out", tracef, "--tier", tier, "--seed", seed])
+    vbf = vlib.validate_batch("Trace_Registry", "Trace_Registry.cfg", tracef, "registry_free_" + pid, start_lenient=True)
+    log("[V] registry-free: %d runs, %d events: %d accepted on their observations, %d rejected, %d not validated" % (
+        summf["runs"], vbf["events"], vbf["lenient_accepted"], len(vbf["violations"]), vbf["unvalidated"]))
+    for viol in vbf["violations"]:
+        meta = json.loads(viol["run"][0]).get("meta", {})
+        ev = viol.get("lenient_event") or viol.get("strict_event") or "{}"
+        try:
+            j = json.loads(ev)
+            lab = "%s(%s)" % (j.get("a", "?"), j.get("who", ""))
+        except Exception:
+            lab = "?"
+        v.violation("registry-free %s first-unexplained=%s" % (meta.get("shape"), lab),
+                    {"family": "registry-free", "meta": meta, "trace": [json.loads(x) for x in viol["run"]],
+                     "first_unexplained": viol.get("lenient_event_index"), "event": ev})
     repro = None
     for name, n in vb["deviations"].items():
         if DEV_OWNER.get(name) == pid:
@@ -106,7 +124,10 @@ def run(pid, tier, seed):
         "transitions": sum(m["transitions"] for m in mcs),
         "traces_validated_against_impl": vb["strict_accepted"] + len(vb["divergences"]),
         "samples": summ.get("samples", [])[:3],
-        "evaluations": summ["runs"],
+        "evaluations": summ["runs"] + summf["runs"],
+        "free_running_runs": summf["runs"],
+        "free_running_accepted": vbf["lenient_accepted"],
+        "free_running_unvalidated": vbf["unvalidated"],
         "distinct_nontrivial": summ["distinct_nontrivial"],
         "rule": "one evaluation = one schedule of one shape: 2-3 spawner threads x 1-2 attempts under one fresh name (each success "
                 "exits and is waited for on its thread), 1-2 lookup threads (where_is + status read, where_is_pid, registered), "
